@@ -111,6 +111,14 @@ def bits(vals):
     return b
 
 
+def bits_exact(pairs):
+    b = 0
+    for p in pairs:
+        for fr in p:
+            b = max(b, fr.numerator.bit_length(), fr.denominator.bit_length())
+    return b
+
+
 # ---------------------------------------------------------------------------
 # leaves
 
@@ -829,14 +837,18 @@ def systematic_cases(ctx, pool, cplx, leaf_kinds):
         base = ('L', i)
         for one in level_forms(rng, pool, cplx, base, (l.dom, l.ran)):
             ty1 = pytype(one, pool)
+            if degree(one, pool) > 12:
+                continue
             yield {'ast': one, 'cplx': cplx, 'x': rand_point(rng, int(l.dom[1:]), cplx),
                    'stream': 'level1'}
             if ty1 is None or ty1[0] == 'F':
                 continue
             twos = level_forms(rng, pool, cplx, one, ty1)
-            if ctx.quick:
-                twos = [t for t in twos if rng.random() < (0.25 if cplx else 0.4)]
+            keep = (0.25 if cplx else 0.4) if ctx.quick else 0.8
+            twos = [t for t in twos if rng.random() < keep]
             for two in twos:
+                if degree(two, pool) > 12:
+                    continue  # keeps the float values exactly representable
                 ty2 = pytype(two, pool)
                 d2 = ty2[0] if ty2 else l.dom
                 if d2 == 'F':
@@ -940,7 +952,7 @@ def problem_class(p, case, real, pool):
     return 'other;'
 
 
-def run_driver_parallel(lines, workers=4):
+def run_driver_parallel(lines, workers=6):
     """core.run_driver on `workers` slices at once (the driver is interpreted; one process
     per slice)."""
     if len(lines) < 400:
@@ -1007,7 +1019,8 @@ def process(ctx, cases, pool, spaces, pool_ids, count=True):
                 ctx.disagree(desc, 'documented-rule flag {}'.format(lin_expected(c['ast'], pool)),
                              'linOf ' + f['linof'])
             else:
-                ex = real.get('exact', False)
+                # exact comparison only if the exact (model) value itself fits a double
+                ex = real.get('exact', False) and bits_exact(parse_cl(f['den'])) <= EXACT_BITS
                 for name in ('val', 'inp'):
                     got = real.get(name)
                     if got is None or got == 'undefined' or None in got or \
